@@ -490,7 +490,7 @@ def directory_index(req, path):  # noqa: C901
         "</html>")
 
     return (content, "text/html; character=utf-8",
-            ('Last-Modified', last_modified))
+            (('Last-Modified', last_modified),))
 
 
 def debug_info(req, app):
